@@ -435,7 +435,57 @@ fn check_unfolded_bignums(g: &mut Gen, ctx: &mut Ctx) -> CaseResult {
     Ok(())
 }
 
+/// Lists whose length sits on a CBOR head-width boundary (23 / 24, 255 / 256, 65535 / 65536), for
+/// every list the crate writes itself: keys of a key set, signers, recipients, counter-signatures,
+/// crit entries, key operations (texts), trailing KDF strings.  Byte-level encoding equals
+/// serialising the converted item there too.
+fn check_list_lengths(g: &mut Gen, ctx: &mut Ctx) -> CaseResult {
+    let n = *g.pick(&[0usize, 1, 22, 23, 24, 25, 254, 255, 256, 257, 65534, 65535, 65536, 65537]);
+    let rep = |prefix: &[u8], n: usize, elem: &dyn Fn(usize) -> Vec<u8>, suffix: &[u8]| -> Vec<u8> {
+        let mut b = prefix.to_vec();
+        crate::cbor::head(&mut b, 4, n as u64);
+        for i in 0..n {
+            b.extend_from_slice(&elem(i));
+        }
+        b.extend_from_slice(suffix);
+        b
+    };
+    let text = |i: usize| -> Vec<u8> {
+        let t = format!("{:05x}", i);
+        let mut b = vec![0x60 + t.len() as u8];
+        b.extend_from_slice(t.as_bytes());
+        b
+    };
+    let (name, b): (&str, Vec<u8>) = match g.below(7) {
+        0 => ("CoseKeySet", rep(&[], n, &|_| vec![0xa1, 0x01, 0x01], &[])),
+        1 => ("CoseSign", rep(&[0x84, 0x40, 0xa0, 0xf6], n, &|_| vec![0x83, 0x40, 0xa0, 0x40], &[])),
+        2 => ("CoseEncrypt", rep(&[0x84, 0x40, 0xa0, 0xf6], n, &|_| vec![0x83, 0x40, 0xa0, 0xf6], &[])),
+        3 => ("CoseMac", rep(&[0x85, 0x40, 0xa0, 0xf6, 0x40], n, &|_| vec![0x83, 0x40, 0xa0, 0xf6], &[])),
+        4 => ("Header", rep(&[0xa1, 0x07], n.max(2), &|_| vec![0x83, 0x40, 0xa0, 0x40], &[])),
+        5 => ("Header", rep(&[0xa1, 0x02], n.max(1), &|_| vec![0x01], &[])),
+        _ => ("CoseKey", rep(&[0xa2, 0x01, 0x01, 0x04], n.max(1), &text, &[])),
+    };
+    let t = all_types().iter().find(|t| t.name == name).ok_or("type")?;
+    ctx.classf(format!("list-length:{}:{}", name, n));
+    ctx.nontrivial(hash_bytes(&[name.as_bytes(), &(n as u64).to_be_bytes()[..], &b[..b.len().min(8)]].concat()));
+    ctx.sample_with(|| format!("{} holding a list of {} elements: {}", name, n, hex_trunc(&b, 20)));
+    let got = (t.dec)(&b);
+    let via = match parse_one(&b) {
+        Ok(v) => (t.dec_value)(v).map_err(|_| ()),
+        Err(()) => Err(()),
+    };
+    ensure!(got.is_ok() == via.is_ok(), "{}: from_slice {} but parse-then-convert {} for a list of {} elements", name, if got.is_ok() { "accepts" } else { "rejects" }, if via.is_ok() { "accepts" } else { "rejects" }, n);
+    if let (Some(Ok(direct)), Some(Ok(v))) = ((t.recode)(&b), (t.to_value)(&b)) {
+        let viav = serialise(&v).map_err(|_| format!("{}: to_cbor_value output does not serialise", name))?;
+        ensure!(direct == viav, "{}: to_vec differs from serialising to_cbor_value for a list of {} elements: {} vs {}", name, n, hex_trunc(&direct, 16), hex_trunc(&viav, 16));
+    }
+    Ok(())
+}
+
 fn case(g: &mut Gen, ctx: &mut Ctx) -> CaseResult {
+    if g.ratio(1, 60) {
+        return check_list_lengths(g, ctx);
+    }
     if g.ratio(1, 25) {
         return check_unfolded_bignums(g, ctx);
     }
